@@ -127,18 +127,20 @@ def run(case, ctx):
     if key_b not in store["bufs"]:
         store["bufs"][key_b] = (np.zeros(pred.shape, pred.dtype), np.zeros(refa.shape, refa.dtype))
     bp, br = store["bufs"][key_b]
-    np.copyto(bp, pred)
-    np.copyto(br, refa)
     for metric, thr in (("IOU", 0.5), ("DSC", 0.4), ("ASSD", 1.0), ("IOU", 0.7)):
         if (metric, thr) not in store["matchers"]:
             store["matchers"][(metric, thr)] = pan.make_matcher({"kind": "merge", "metric": metric, "thr": thr})
-        ctx.count("evaluations")
-        ctx.count("C14.reused_matcher_calls")
-        try:
-            with pan.quiet():
-                store["matchers"][(metric, thr)].match_instances(UnmatchedInstancePair(bp, br))
-        except Exception:  # noqa: BLE001
-            pass
+        # the buffers are refilled between two consecutive calls (second content: the prediction mirrored)
+        for content in (pred, pred[::-1]):
+            np.copyto(bp, content)
+            np.copyto(br, refa)
+            ctx.count("evaluations")
+            ctx.count("C14.reused_matcher_calls")
+            try:
+                with pan.quiet():
+                    store["matchers"][(metric, thr)].match_instances(UnmatchedInstancePair(bp, br))
+            except Exception:  # noqa: BLE001
+                pass
     monitors.S.exact = False
     if multi and i % 40 == 0:
         ctx.sample({"family": fam, "pred": pred, "ref": refa})
